@@ -12,6 +12,9 @@ MODELLED = [
     "cast, extern declaration and C definition; declared layout",
     "index ranges of the index-addressed C routines (current-flow "
     "betweenness x2, Spearman correlation): 35 accesses",
+    "pointer-walking C routines (surrogate test matrices, histogram mutual "
+    "information x2): induction variables and pointer offsets by abstract "
+    "interpretation, 28 accesses; bin numbers of the guarded symbolisation",
 ]
 HERE = os.path.dirname(os.path.abspath(__file__))
 
@@ -159,7 +162,7 @@ def search(ctx):
     if results is None or ctx.scale > 1:
         total, results = drive(ctx, "asan", 2)
     for k, (label, res, info) in sorted(results.items()):
-        ctx.evaluations += 1
+        ctx.count({"case": label}, nontrivial=True)
         if res in ("died", "ub"):
             ctx.violation(label.split(" ")[0] if res == "died" else
                           "undefined arithmetic",
@@ -167,7 +170,8 @@ def search(ctx):
                            else "undefined behaviour: ") + (info or ""),
                           {"case": label, "report": info, "index": k},
                           {"kind": res})
-    ctx.count({"cases": len(results)}, nontrivial=True)
+    for k, (label, res, info) in sorted(results.items())[:3]:
+        ctx.sample({"case": label, "outcome": res})
 
 
 def replay(ctx, rep):
